@@ -8,12 +8,13 @@ from ..serial import dump_value, outcome
 from .c04 import dump_item
 
 
-def _plain(v):
+def _plain(v, as_float=False):
     if v["t"] == "s":
         return uncps(v["s"])
     if v["t"] == "n":
         n, d = v["num"]
-        return n if d == 1 else n / d
+        # (as_float: a whole number written with a decimal point - 1.0 - is the same number for Sigma and another type for Python)
+        return (float(n) if as_float else n) if d == 1 else n / d
     if v["t"] == "b":
         return bool(v["b"])
     if v["t"] == "N":
@@ -25,7 +26,7 @@ def drive_case(case):
     from sigma.rule.detection import SigmaDetectionItem
 
     key = ("f" if case["field"] else "") + "".join("|" + uncps(m) for m in case["chain"])
-    vals = [_plain(v) for v in case["vals"]]
+    vals = [_plain(v, (case["id"] * 2654435761 >> 10) % 2 == 1) for v in case["vals"]]
     value = vals[0] if len(vals) == 1 else vals
     if key == "":
         key = None
